@@ -81,3 +81,70 @@ Print Assumptions C16_restore_wraps_refuted.
 (* with group starts clamped to models.MinNanoTime (props/C16/fix2.patch) the same sequence survives the restore *)
 Example C16_clamped_restore_ok : forall clip cleardef, wf_b (run clip cleardef (init_cat_v 1 true true) restore_witness) = true.
 Proof. intros [|] [|]; vm_compute; reflexivity. Qed.
+
+(* ---- the variants before the repairs of round 4/5 ---- *)
+(* CreateMeasurement with a schema list naming a field twice with different types, before /repo f21700b: the measurement is
+   registered (MaxMstID moves), then the command fails - a failed command changed the catalogue *)
+Definition half_witness : list cmd := [CreateNode 1 1; CreateDb 1 1 0 HOUR].
+
+Theorem C16_half_applied_refuted :
+  exists c x, schemafirst c = false /\ snd (apply_current c x) = false /\ max_mst (fst (apply_current c x)) <> max_mst c.
+Proof.
+  exists (run false false (init_cat 1 true) half_witness), (CreateMstBad 1 1 1).
+  vm_compute. repeat split; discriminate.
+Qed.
+Print Assumptions C16_half_applied_refuted.
+
+Example C16_half_applied_repaired :
+  let c := run true true (init_cat_rep 1 true) half_witness in
+  apply_repaired c (CreateMstBad 1 1 1) = (c, false).
+Proof. vm_compute. reflexivity. Qed.
+
+(* a policy rename before /repo f36a23d: the Name changes, the map key does not; with makeDefault the database's default
+   names a policy that cannot be found *)
+Definition rename_witness : list cmd := [CreateNode 1 1; CreateDb 1 1 0 HOUR; RenameRp 1 1 2 None None true].
+
+Theorem C16_rename_stale_key_refuted :
+  exists cs p d, let c := run false true (init_cat_v 1 true true) cs in
+    In p (pols c) /\ rp_nm p <> rp_name p /\ In d (dbs c) /\ db_default d <> 0 /\ ~ In (db_name d, db_default d) (pol_keys c).
+Proof.
+  exists rename_witness. eexists. eexists. cbv zeta.
+  set (c := run false true (init_cat_v 1 true true) rename_witness). vm_compute in c.
+  split. { left. reflexivity. }
+  split. { cbn. discriminate. }
+  split. { left. reflexivity. }
+  split. { cbn. discriminate. }
+  cbn. intros [E|[]]. discriminate.
+Qed.
+Print Assumptions C16_rename_stale_key_refuted.
+
+(* a shard group is marked deleted, a write creates a new group for the same span, the deletion is cancelled
+   (RevertRetentionPolicyDelete): two live groups with the same span *)
+Definition cancel_witness : list cmd :=
+  [CreateNode 1 1; CreateDb 1 1 0 HOUR; CreateMst 1 1 1; CreateSg 1 1 1700042400000000005 0; DeleteSg 1 1 1;
+   CreateSg 1 1 1700042400000000005 0; CancelDeleteSg 1 1 1].
+
+Theorem C16_cancel_delete_overlap_refuted :
+  exists cs p a b, In p (pols (run true true (init_cat_o 1 true true true true false) cs)) /\
+    In a (rp_sgs p) /\ In b (rp_sgs p) /\ sg_id a <> sg_id b /\ sg_dur a = sg_dur b /\ overlapping a b.
+Proof.
+  exists cancel_witness.
+  set (c := run true true (init_cat_o 1 true true true true false) cancel_witness).
+  vm_compute in c.
+  eexists. eexists. eexists.
+  split. { left. reflexivity. }
+  split. { left. reflexivity. }
+  split. { right. left. reflexivity. }
+  split. { vm_compute. discriminate. }
+  split. { reflexivity. }
+  unfold overlapping. cbn. repeat split; try reflexivity.
+Qed.
+Print Assumptions C16_cancel_delete_overlap_refuted.
+
+(* the three sequences under the repaired step function *)
+Example C16_round5_repaired_on_witnesses :
+  wf_b (run true true (init_cat_rep 1 true) rename_witness) = true /\
+  wf_b (run true true (init_cat_rep 1 true) cancel_witness) = true /\
+  wf_b (run false true (init_cat_v 1 true true) rename_witness) = false /\
+  wf_b (run true true (init_cat_o 1 true true true true false) cancel_witness) = false.
+Proof. vm_compute. repeat split. Qed.
